@@ -37,61 +37,86 @@ Proof.
   intros z Hz. unfold truthy. apply negb_false_iff. apply Qeq_bool_iff. exact Hz.
 Qed.
 
-Lemma deadline_pos : forall a i, 0 < i -> deadline a (Some i) = Some (a + i).
-Proof.
-  intros a i Hi. unfold deadline. apply qlt_true in Hi. rewrite Hi. reflexivity.
-Qed.
+(* the instant at which asyncio.wait_for(aw, i) entered at [a] gives up: a + i, at once when i <= 0 *)
+Definition due (a i : Q) : Q := if qlt 0 i then a + i else a.
 
-Lemma deadline_nonpos : forall a i, i <= 0 -> deadline a (Some i) = Some a.
+Lemma deadline_due : forall a i, deadline a (Some i) = Some (due a i).
+Proof. reflexivity. Qed.
+
+Lemma due_pos : forall a i, 0 < i -> due a i = a + i.
+Proof. intros a i Hi. unfold due. apply qlt_true in Hi. rewrite Hi. reflexivity. Qed.
+
+Lemma due_nonpos : forall a i, i <= 0 -> due a i = a.
 Proof.
-  intros a i Hi. unfold deadline. destruct (qlt 0 i) eqn:E; [|reflexivity].
+  intros a i Hi. unfold due. destruct (qlt 0 i) eqn:E; [|reflexivity].
   apply qlt_true in E. lra.
 Qed.
+
+Lemma due_ge : forall a i, a <= due a i.
+Proof.
+  intros a i. unfold due. destruct (qlt 0 i) eqn:E; [|lra]. apply qlt_true in E. lra.
+Qed.
+
+Lemma due_le : forall a i, 0 <= i -> due a i <= a + i.
+Proof.
+  intros a i Hi. unfold due. destruct (qlt 0 i); lra.
+Qed.
+
+Lemma due_reached_now : forall a i, due a i <= a -> due a i = a.
+Proof.
+  intros a i H. unfold due in *. destruct (qlt 0 i) eqn:E; [|reflexivity].
+  apply qlt_true in E. lra.
+Qed.
+
+Lemma due_spec : forall a T,
+  (0 < T -> due a T = a + T) /\ (T <= 0 -> due a T = a) /\ a <= due a T /\ (0 <= T -> due a T <= a + T).
+Proof.
+  intros a T. split; [apply due_pos|]. split; [apply due_nonpos|]. split; [apply due_ge|apply due_le].
+Qed.
+
+Lemma deadline_pos : forall a i, 0 < i -> deadline a (Some i) = Some (a + i).
+Proof. intros a i Hi. rewrite deadline_due, (due_pos _ _ Hi). reflexivity. Qed.
+
+Lemma deadline_nonpos : forall a i, i <= 0 -> deadline a (Some i) = Some a.
+Proof. intros a i Hi. rewrite deadline_due, (due_nonpos _ _ Hi). reflexivity. Qed.
 
 (* ---------------------------------------------------------------- the wiring of the source *)
 Definition alive (s : state) : Prop := ended s = None.
 
-Lemma ctrl_read_set : forall c i, idle c = Some i -> 0 < i ->
-  eval c (w_ctrl_read std_wiring) = Some i.
-Proof. intros c i H Hi. cbn. rewrite H, (truthy_pos i Hi). reflexivity. Qed.
+(* every await is governed by exactly the configured value: None is None and 0 is 0 *)
+Lemma ctrl_read_is_idle : forall c, eval c (w_ctrl_read std_wiring) = idle c.
+Proof. intros c. cbn. destruct (idle c); reflexivity. Qed.
 
-Lemma ctrl_read_unset : forall c, truthy (idle c) = false ->
-  eval c (w_ctrl_read std_wiring) = None.
-Proof. intros c H. cbn. rewrite H. reflexivity. Qed.
-
-Lemma ctrl_write_set : forall c x, socket c = Some x -> 0 < x ->
-  eval c (w_ctrl_write std_wiring) = Some x.
-Proof. intros c x H Hx. cbn. rewrite H, (truthy_pos x Hx). reflexivity. Qed.
-
-Lemma ctrl_write_unset : forall c, truthy (socket c) = false ->
-  eval c (w_ctrl_write std_wiring) = None.
-Proof. intros c H. cbn. rewrite H. reflexivity. Qed.
+Lemma ctrl_write_is_socket : forall c, eval c (w_ctrl_write std_wiring) = socket c.
+Proof. intros c. cbn. destruct (socket c); reflexivity. Qed.
 
 Lemma data_timeout_is_socket : forall c d, eval c (data_texpr std_wiring d) = socket c.
-Proof. intros c d. destruct d; cbn; destruct (truthy (socket c)); reflexivity. Qed.
+Proof. intros c d. destruct d; reflexivity. Qed.
 
-Lemma idle_dl_set : forall c s i, idle c = Some i -> 0 < i ->
-  idle_dl std_wiring c s = Some (armed s + i, CIdle).
+Lemma wait_is_wait_future : forall c, eval c (w_wait std_wiring) = wait_future c.
+Proof. reflexivity. Qed.
+
+Theorem effective_timeouts : forall c,
+  eval c (w_ctrl_read std_wiring) = idle c /\ eval c (w_ctrl_write std_wiring) = socket c /\
+  eval c (w_data_read std_wiring) = socket c /\ eval c (w_data_write std_wiring) = socket c /\
+  eval c (w_wait std_wiring) = wait_future c.
 Proof.
-  intros c s i H Hi. unfold idle_dl. rewrite (ctrl_read_set c i H Hi), (deadline_pos _ _ Hi).
+  intros c. split; [apply ctrl_read_is_idle|]. split; [apply ctrl_write_is_socket|].
+  split; [exact (data_timeout_is_socket c Up)|]. split; [exact (data_timeout_is_socket c Down)|].
   reflexivity.
 Qed.
 
-Lemma idle_dl_unset : forall c s, truthy (idle c) = false -> idle_dl std_wiring c s = None.
-Proof. intros c s H. unfold idle_dl. rewrite (ctrl_read_unset c H). reflexivity. Qed.
+Lemma idle_dl_set : forall c s i, idle c = Some i ->
+  idle_dl std_wiring c s = Some (due (armed s) i, CIdle).
+Proof. intros c s i H. unfold idle_dl. rewrite ctrl_read_is_idle, H. reflexivity. Qed.
 
-Lemma data_dl_set : forall c s d p x, xf s = XMove d p -> socket c = Some x -> 0 < x ->
-  data_dl std_wiring c s = Some (p + x, CData).
-Proof.
-  intros c s d p x Hx H Hp. unfold data_dl. rewrite Hx, data_timeout_is_socket, H.
-  rewrite (deadline_pos _ _ Hp). reflexivity.
-Qed.
+Lemma idle_dl_unset : forall c s, idle c = None -> idle_dl std_wiring c s = None.
+Proof. intros c s H. unfold idle_dl. rewrite ctrl_read_is_idle, H. reflexivity. Qed.
 
-Lemma data_dl_zero : forall c s d p z, xf s = XMove d p -> socket c = Some z -> z <= 0 ->
-  data_dl std_wiring c s = Some (p, CData).
+Lemma data_dl_set : forall c s d p x, xf s = XMove d p -> socket c = Some x ->
+  data_dl std_wiring c s = Some (due p x, CData).
 Proof.
-  intros c s d p z Hx H Hz. unfold data_dl. rewrite Hx, data_timeout_is_socket, H.
-  rewrite (deadline_nonpos _ _ Hz). reflexivity.
+  intros c s d p x Hx H. unfold data_dl. rewrite Hx, data_timeout_is_socket, H. reflexivity.
 Qed.
 
 Lemma data_dl_unset : forall c s, socket c = None -> data_dl std_wiring c s = None.
@@ -109,17 +134,16 @@ Qed.
 Lemma cw_dl_none : forall w c s, cw s = None -> cw_dl w c s = None.
 Proof. intros w c s H. unfold cw_dl. rewrite H. reflexivity. Qed.
 
-Lemma cw_dl_set : forall c s t x, cw s = Some t -> socket c = Some x -> 0 < x ->
-  cw_dl std_wiring c s = Some (t + x, CCtrlWrite).
+Lemma cw_dl_set : forall c s t x, cw s = Some t -> socket c = Some x ->
+  cw_dl std_wiring c s = Some (due t x, CCtrlWrite).
 Proof.
-  intros c s t x Hc H Hx. unfold cw_dl. rewrite Hc, (ctrl_write_set c x H Hx), (deadline_pos _ _ Hx).
-  reflexivity.
+  intros c s t x Hc H. unfold cw_dl. rewrite Hc, ctrl_write_is_socket, H. reflexivity.
 Qed.
 
-Lemma cw_dl_unset : forall c s, truthy (socket c) = false -> cw_dl std_wiring c s = None.
+Lemma cw_dl_unset : forall c s, socket c = None -> cw_dl std_wiring c s = None.
 Proof.
   intros c s H. unfold cw_dl. destruct (cw s); [|reflexivity].
-  rewrite (ctrl_write_unset c H). reflexivity.
+  rewrite ctrl_write_is_socket, H. reflexivity.
 Qed.
 
 (* ---------------------------------------------------------------- pick *)
@@ -494,37 +518,53 @@ Qed.
 
 (* ---------------------------------------------------------------- idle *)
 (* a session whose last control line was consumed, with the next read armed at [armed s], is
-   dropped at exactly armed s + idle when the peer stalls -- unless a data / control-write
-   deadline comes strictly earlier *)
-Theorem idle_drop_exact : forall c s i, alive s -> idle c = Some i -> 0 < i ->
-  (forall y ky, data_dl std_wiring c s = Some (y, ky) -> armed s + i <= y) ->
-  (forall y ky, cw_dl std_wiring c s = Some (y, ky) -> armed s + i <= y) ->
-  ended (finish std_wiring c s) = Some (armed s + i, CIdle).
+   dropped at exactly due (armed s) idle (= armed s + idle; = armed s when idle <= 0) when the peer
+   stalls -- unless a data / control-write deadline comes strictly earlier *)
+Theorem idle_drop_exact : forall c s i, alive s -> idle c = Some i ->
+  (forall y ky, data_dl std_wiring c s = Some (y, ky) -> due (armed s) i <= y) ->
+  (forall y ky, cw_dl std_wiring c s = Some (y, ky) -> due (armed s) i <= y) ->
+  ended (finish std_wiring c s) = Some (due (armed s) i, CIdle).
 Proof.
-  intros c s i Ha Hi Hp Hd Hc. apply stall_ends_at_deadline; auto.
+  intros c s i Ha Hi Hd Hc. apply stall_ends_at_deadline; auto.
   apply end_dl_idle_wins; auto. apply idle_dl_set; auto.
 Qed.
 
 (* the same, whatever the peer does on the data channel or later on the control channel:
    the first event at or after the idle deadline finds the session dropped at the deadline *)
-Theorem idle_drop_exact_event : forall c s i e, alive s -> idle c = Some i -> 0 < i ->
-  (forall y ky, data_dl std_wiring c s = Some (y, ky) -> armed s + i <= y) ->
-  (forall y ky, cw_dl std_wiring c s = Some (y, ky) -> armed s + i <= y) ->
-  armed s + i <= time_of e ->
-  ended (step std_wiring c s e) = Some (armed s + i, CIdle).
+Theorem idle_drop_exact_event : forall c s i e, alive s -> idle c = Some i ->
+  (forall y ky, data_dl std_wiring c s = Some (y, ky) -> due (armed s) i <= y) ->
+  (forall y ky, cw_dl std_wiring c s = Some (y, ky) -> due (armed s) i <= y) ->
+  due (armed s) i <= time_of e ->
+  ended (step std_wiring c s e) = Some (due (armed s) i, CIdle).
 Proof.
-  intros c s i e Ha Hi Hp Hd Hc Ht. apply dropped_at_deadline; auto.
+  intros c s i e Ha Hi Hd Hc Ht. apply dropped_at_deadline; auto.
   apply end_dl_idle_wins; auto. apply idle_dl_set; auto.
 Qed.
 
-(* wherever the stall begins, a session with an idle timeout is released no later than
-   armed s + idle *)
-Theorem idle_release_bound : forall c s i, alive s -> idle c = Some i -> 0 < i ->
+(* wherever the stall begins, a session with an idle timeout (ANY value) is released no later than
+   due (armed s) idle *)
+Theorem idle_release_due : forall c s i, alive s -> idle c = Some i ->
+  exists d k, ended (finish std_wiring c s) = Some (d, k) /\ d <= due (armed s) i.
+Proof.
+  intros c s i Ha Hi.
+  destruct (end_dl_le_idle std_wiring c s _ (idle_dl_set c s i Hi)) as (d & k & E & Hle).
+  exists d, k. split; [|exact Hle]. apply stall_ends_at_deadline; auto.
+Qed.
+
+(* the statement of the property, for every value 0 <= i (0 included) *)
+Theorem idle_release_bound : forall c s i, alive s -> idle c = Some i -> 0 <= i ->
   exists d k, ended (finish std_wiring c s) = Some (d, k) /\ d <= armed s + i.
 Proof.
-  intros c s i Ha Hi Hp.
-  destruct (end_dl_le_idle std_wiring c s _ (idle_dl_set c s i Hi Hp)) as (d & k & E & Hle).
-  exists d, k. split; [|exact Hle]. apply stall_ends_at_deadline; auto.
+  intros c s i Ha Hi Hp. destruct (idle_release_due c s i Ha Hi) as (d & k & E & Hle).
+  exists d, k. split; [exact E|]. pose proof (due_le (armed s) i Hp). lra.
+Qed.
+
+(* idle_timeout <= 0: gone by the instant the read was armed *)
+Theorem idle_zero_release : forall c s z, alive s -> idle c = Some z -> z <= 0 ->
+  exists d k, ended (finish std_wiring c s) = Some (d, k) /\ d <= armed s.
+Proof.
+  intros c s z Ha Hi Hz. destruct (idle_release_due c s z Ha Hi) as (d & k & E & Hle).
+  exists d, k. split; [exact E|]. rewrite (due_nonpos _ _ Hz) in Hle. exact Hle.
 Qed.
 
 (* ... and never if the next line arrives before: it is handled and re-arms the timer *)
@@ -541,39 +581,39 @@ Qed.
 Fixpoint within_idle (i a : Q) (evs : list event) : Prop :=
   match evs with
   | [] => True
-  | e :: r => time_of e < a + i /\ within_idle i (next_armed a e) r
+  | e :: r => time_of e < due a i /\ within_idle i (next_armed a e) r
   end.
 
-Theorem active_never_idle_dropped : forall c i evs s, idle c = Some i -> 0 < i -> alive s ->
+Theorem active_never_idle_dropped : forall c i evs s, idle c = Some i -> alive s ->
   within_idle i (armed s) evs ->
   forall d k, ended (run_events std_wiring c s evs) = Some (d, k) -> k <> CIdle.
 Proof.
-  intros c i evs. induction evs as [|e r IH]; intros s Hi Hp Ha Hw d k H.
+  intros c i evs. induction evs as [|e r IH]; intros s Hi Ha Hw d k H.
   - rewrite run_events_nil in H. rewrite Ha in H. discriminate.
   - rewrite run_events_cons in H. destruct Hw as [Ht Hw].
     destruct (ended (step std_wiring c s e)) as [[d' k']|] eqn:E.
     + rewrite (run_events_ended _ _ r _ _ E) in H. rewrite E in H. inversion H; subst.
       destruct (step_end_cause std_wiring c s e d k eq_refl Ha E) as [Hd Hle].
       intro Hk. subst k. apply end_dl_cause_idle in Hd.
-      rewrite (idle_dl_set c s i Hi Hp) in Hd. inversion Hd; subst. lra.
-    + refine (IH (step std_wiring c s e) Hi Hp E _ d k H).
+      rewrite (idle_dl_set c s i Hi) in Hd. inversion Hd; subst. lra.
+    + refine (IH (step std_wiring c s e) Hi E _ d k H).
       rewrite (step_armed std_wiring c s e eq_refl E). exact Hw.
 Qed.
 
 (* data-channel activity never re-arms the idle timer: with no further control line the session
-   is gone by armed s + idle whatever happens on the data channel *)
+   is gone by the idle deadline whatever happens on the data channel *)
 Definition is_line (e : event) : bool := match e with Line _ _ _ => true | _ => false end.
 
-Theorem idle_drop_during_transfer : forall c i evs s, idle c = Some i -> 0 < i -> alive s ->
+Theorem idle_drop_during_transfer : forall c i evs s, idle c = Some i -> alive s ->
   forallb (fun e => negb (is_line e)) evs = true ->
   exists d k, ended (finish std_wiring c (run_events std_wiring c s evs)) = Some (d, k) /\
-              d <= armed s + i /\ (k = CIdle -> d = armed s + i).
+              d <= due (armed s) i /\ (k = CIdle -> d = due (armed s) i).
 Proof.
-  intros c i evs. induction evs as [|e r IH]; intros s Hi Hp Ha Hn.
+  intros c i evs. induction evs as [|e r IH]; intros s Hi Ha Hn.
   - rewrite run_events_nil.
-    destruct (end_dl_le_idle std_wiring c s _ (idle_dl_set c s i Hi Hp)) as (d & k & E & Hle).
+    destruct (end_dl_le_idle std_wiring c s _ (idle_dl_set c s i Hi)) as (d & k & E & Hle).
     exists d, k. split; [apply stall_ends_at_deadline; auto|]. split; [exact Hle|].
-    intro Hk. subst k. apply end_dl_cause_idle in E. rewrite (idle_dl_set c s i Hi Hp) in E.
+    intro Hk. subst k. apply end_dl_cause_idle in E. rewrite (idle_dl_set c s i Hi) in E.
     inversion E. reflexivity.
   - cbn in Hn. apply andb_true_iff in Hn. destruct Hn as [Hl Hn]. rewrite run_events_cons.
     destruct (ended (step std_wiring c s e)) as [[d k]|] eqn:E.
@@ -581,10 +621,10 @@ Proof.
       destruct (step_end_cause std_wiring c s e d k eq_refl Ha E) as [Hd Hle].
       exists d, k. split; [reflexivity|].
       destruct (end_dl_lower _ _ _ _ _ Hd) as (L1 & _ & _).
-      specialize (L1 _ _ (idle_dl_set c s i Hi Hp)). split; [exact L1|].
-      intro Hk. subst k. apply end_dl_cause_idle in Hd. rewrite (idle_dl_set c s i Hi Hp) in Hd.
+      specialize (L1 _ _ (idle_dl_set c s i Hi)). split; [exact L1|].
+      intro Hk. subst k. apply end_dl_cause_idle in Hd. rewrite (idle_dl_set c s i Hi) in Hd.
       inversion Hd. reflexivity.
-    + destruct (IH (step std_wiring c s e) Hi Hp E Hn) as (d & k & H1 & H2 & H3).
+    + destruct (IH (step std_wiring c s e) Hi E Hn) as (d & k & H1 & H2 & H3).
       assert (A : armed (step std_wiring c s e) = armed s).
       { rewrite (step_armed std_wiring c s e eq_refl E). destruct e; try reflexivity. discriminate. }
       rewrite A in H2, H3. exists d, k. auto.
@@ -592,7 +632,7 @@ Qed.
 
 (* ---------------------------------------------------------------- data-connection wait -> 425 *)
 Lemma wait_dl_set : forall c s dr cmd x, xf s = XWait dr cmd -> wait_future c = Some x ->
-  wait_dl std_wiring c s = Some (if qlt 0 x then cmd + x else cmd).
+  wait_dl std_wiring c s = Some (due cmd x).
 Proof. intros c s dr cmd x Hx H. unfold wait_dl. rewrite Hx. cbn. rewrite H. reflexivity. Qed.
 
 Lemma fire_wait_fires : forall w c lim s dr cmd wd, w_wait_continues w = true ->
@@ -612,7 +652,7 @@ Qed.
    next command line) is handled by a live session with no transfer pending *)
 Theorem data_wait_425 : forall c s dr cmd x e, alive s ->
   xf s = XWait dr cmd -> wait_future c = Some x ->
-  let wd := if qlt 0 x then cmd + x else cmd in
+  let wd := due cmd x in
   (forall d k, end_dl std_wiring c s = Some (d, k) -> wd < d /\ time_of e < d) ->
   wd <= time_of e ->
   step std_wiring c s e = apply_event (reply_425 s wd) e /\
@@ -635,7 +675,7 @@ Qed.
    timer (if set) can end the session *)
 Theorem data_wait_425_stall : forall c s dr cmd x, alive s ->
   xf s = XWait dr cmd -> wait_future c = Some x ->
-  let wd := if qlt 0 x then cmd + x else cmd in
+  let wd := due cmd x in
   (forall d k, end_dl std_wiring c s = Some (d, k) -> wd < d) ->
   r425 (finish std_wiring c s) = wd :: r425 s /\ xf (finish std_wiring c s) = XNone /\
   ended (finish std_wiring c s) = end_dl std_wiring c s.
@@ -652,14 +692,14 @@ Qed.
 
 (* a data connection that arrives strictly before the deadline starts the transfer: no 425 *)
 Theorem data_connect_in_time : forall c s dr cmd x t, alive s ->
-  xf s = XWait dr cmd -> wait_future c = Some x -> t < (if qlt 0 x then cmd + x else cmd) ->
+  xf s = XWait dr cmd -> wait_future c = Some x -> t < due cmd x ->
   (forall d k, end_dl std_wiring c s = Some (d, k) -> t < d) ->
   step std_wiring c s (DataConnects t) = set_xf s (XMove dr t).
 Proof.
   intros c s dr cmd x t Ha Hx Hw Hlt Hd.
   destruct (never_before_bound std_wiring c s (DataConnects t) eq_refl Ha Hd) as [A E].
   rewrite E. unfold fire_wait. rewrite (wait_dl_set c s dr cmd x Hx Hw). cbn [time_of reached].
-  destruct (qle (if qlt 0 x then cmd + x else cmd) t) eqn:Q.
+  destruct (qle (due cmd x) t) eqn:Q.
   - apply qle_true in Q. lra.
   - cbn. rewrite Hx. reflexivity.
 Qed.
@@ -723,24 +763,25 @@ Qed.
 
 (* ---------------------------------------------------------------- data stall *)
 (* a data stream whose pending read/write started at p (= last progress) is abandoned at exactly
-   p + socket_timeout, and -- as the code is written -- that ends the whole session *)
+   due p socket_timeout (p + socket_timeout; p itself when the timeout is <= 0), and -- as the code is
+   written -- that ends the whole session *)
 Theorem data_stall_bound : forall c s dr p x, alive s ->
-  xf s = XMove dr p -> socket c = Some x -> 0 < x ->
-  (forall y ky, idle_dl std_wiring c s = Some (y, ky) -> p + x < y) ->
-  (forall y ky, cw_dl std_wiring c s = Some (y, ky) -> p + x <= y) ->
-  ended (finish std_wiring c s) = Some (p + x, CData).
+  xf s = XMove dr p -> socket c = Some x ->
+  (forall y ky, idle_dl std_wiring c s = Some (y, ky) -> due p x < y) ->
+  (forall y ky, cw_dl std_wiring c s = Some (y, ky) -> due p x <= y) ->
+  ended (finish std_wiring c s) = Some (due p x, CData).
 Proof.
-  intros c s dr p x Ha Hx Hs Hp Hi Hc. apply stall_ends_at_deadline; auto.
+  intros c s dr p x Ha Hx Hs Hi Hc. apply stall_ends_at_deadline; auto.
   apply end_dl_data_wins; auto. apply data_dl_set with (d := dr); auto.
 Qed.
 
-(* released no later than p + socket_timeout whatever else is pending *)
+(* released no later than that whatever else is pending *)
 Theorem data_stall_release_bound : forall c s dr p x, alive s ->
-  xf s = XMove dr p -> socket c = Some x -> 0 < x ->
-  exists d k, ended (finish std_wiring c s) = Some (d, k) /\ d <= p + x.
+  xf s = XMove dr p -> socket c = Some x ->
+  exists d k, ended (finish std_wiring c s) = Some (d, k) /\ d <= due p x.
 Proof.
-  intros c s dr p x Ha Hx Hs Hp.
-  destruct (end_dl_le_data std_wiring c s _ (data_dl_set c s dr p x Hx Hs Hp)) as (d & k & E & Hle).
+  intros c s dr p x Ha Hx Hs.
+  destruct (end_dl_le_data std_wiring c s _ (data_dl_set c s dr p x Hx Hs)) as (d & k & E & Hle).
   exists d, k. split; [|exact Hle]. apply stall_ends_at_deadline; auto.
 Qed.
 
@@ -756,16 +797,16 @@ Qed.
 
 (* a blocked control-channel write (peer does not read replies) is bounded by socket_timeout *)
 Theorem ctrl_write_stall_bound : forall c s t x, alive s ->
-  cw s = Some t -> socket c = Some x -> 0 < x ->
-  exists d k, ended (finish std_wiring c s) = Some (d, k) /\ d <= t + x.
+  cw s = Some t -> socket c = Some x ->
+  exists d k, ended (finish std_wiring c s) = Some (d, k) /\ d <= due t x.
 Proof.
-  intros c s t x Ha Hc Hs Hp.
-  destruct (end_dl_le_cw std_wiring c s _ (cw_dl_set c s t x Hc Hs Hp)) as (d & k & E & Hle).
+  intros c s t x Ha Hc Hs.
+  destruct (end_dl_le_cw std_wiring c s _ (cw_dl_set c s t x Hc Hs)) as (d & k & E & Hle).
   exists d, k. split; [|exact Hle]. apply stall_ends_at_deadline; auto.
 Qed.
 
 (* ---------------------------------------------------------------- unset means unbounded *)
-Theorem unset_idle_never_dropped : forall c s, alive s -> truthy (idle c) = false ->
+Theorem unset_idle_never_dropped : forall c s, alive s -> idle c = None ->
   (forall d p, xf s <> XMove d p) -> cw s = None ->
   alive (finish std_wiring c s).
 Proof.
@@ -785,86 +826,136 @@ Proof.
 Qed.
 
 Theorem unset_socket_never_abandoned : forall c s, alive s -> socket c = None ->
-  truthy (idle c) = false -> alive (finish std_wiring c s).
+  idle c = None -> alive (finish std_wiring c s).
 Proof.
   intros c s Ha Hs Hi. apply stall_never_released; auto.
-  apply end_dl_none; [apply idle_dl_unset; auto|apply data_dl_unset; auto|].
-  apply cw_dl_unset. rewrite Hs. reflexivity.
+  apply end_dl_none; [apply idle_dl_unset; auto|apply data_dl_unset; auto|apply cw_dl_unset; auto].
 Qed.
 
-(* ---------------------------------------------------------------- zero *)
-Definition set_idle (c : config) (o : option Q) : config :=
-  {| idle := o; socket := socket c; wait_future := wait_future c |}.
-Definition set_socket (c : config) (o : option Q) : config :=
-  {| idle := idle c; socket := o; wait_future := wait_future c |}.
+(* ---------------------------------------------------------------- whole sessions: the greeting *)
+Lemma finish_ended : forall w c s x, ended s = Some x -> finish w c s = s.
+Proof. intros w c s x H. unfold finish. exact (advance_ended w c None s x H). Qed.
 
-Lemma advance_ext : forall w c c' lim s,
-  eval c (w_ctrl_read w) = eval c' (w_ctrl_read w) ->
-  eval c (w_ctrl_write w) = eval c' (w_ctrl_write w) ->
-  eval c (w_data_read w) = eval c' (w_data_read w) ->
-  eval c (w_data_write w) = eval c' (w_data_write w) ->
-  eval c (w_wait w) = eval c' (w_wait w) ->
-  advance w c lim s = advance w c' lim s.
+Lemma run_dead_start : forall w c t0 evs x, ended (start w c t0) = Some x ->
+  ended (run w c t0 evs) = Some x.
 Proof.
-  intros w c c' lim s H1 H2 H3 H4 H5.
-  assert (Ei : forall s, idle_dl w c s = idle_dl w c' s) by (intro; unfold idle_dl; rewrite H1; reflexivity).
-  assert (Ed : forall s, data_dl w c s = data_dl w c' s).
-  { intro s0. unfold data_dl. destruct (xf s0) as [| |d p]; try reflexivity.
-    destruct d; cbn; [rewrite H3|rewrite H4]; reflexivity. }
-  assert (Ec : forall s, cw_dl w c s = cw_dl w c' s) by (intro; unfold cw_dl; rewrite H2; reflexivity).
-  assert (Ee : forall s, end_dl w c s = end_dl w c' s) by (intro; unfold end_dl; rewrite Ei, Ed, Ec; reflexivity).
-  assert (Ew : forall s, wait_dl w c s = wait_dl w c' s) by (intro; unfold wait_dl; rewrite H5; reflexivity).
-  unfold advance, fire_end, fire_wait. rewrite Ew, Ee.
-  destruct (ended s); [reflexivity|]. rewrite Ee. reflexivity.
+  intros w c t0 evs x H. unfold run.
+  rewrite (run_events_ended w c evs _ x H), (finish_ended w c _ x H). exact H.
 Qed.
 
-Lemma run_ext : forall w c c',
-  (forall lim s, advance w c lim s = advance w c' lim s) ->
-  forall t0 evs, run w c t0 evs = run w c' t0 evs.
+Lemma start_unfold : forall w c t0,
+  start w c t0 = step w c (step w c (init t0) (CtrlBlocks t0)) (CtrlUnblocks t0).
+Proof. reflexivity. Qed.
+
+(* the greeting write entered at t0, when the session survives it *)
+Lemma first_step_alive : forall w c t0, ended (step w c (init t0) (CtrlBlocks t0)) = None ->
+  step w c (init t0) (CtrlBlocks t0)
+  = {| armed := t0; xf := XNone; data_ready := false; cw := Some t0; r425 := []; ended := None |}.
 Proof.
-  intros w c c' H t0 evs. unfold run, finish.
-  assert (R : forall evs s, run_events w c s evs = run_events w c' s evs).
-  { assert (S1 : forall s e, step w c s e = step w c' s e) by (intros; unfold step; rewrite H; reflexivity).
-    induction evs0 as [|e r IH]; intro s; [reflexivity|].
-    rewrite !run_events_cons, S1. apply IH. }
-  rewrite R, H. reflexivity.
+  intros w c t0 H. unfold step in *.
+  destruct (ended (advance w c (Some (time_of (CtrlBlocks t0))) (init t0))) eqn:A; [rewrite A in H; discriminate|].
+  clear H. unfold advance in *. cbn [ended init] in *.
+  rewrite fire_wait_not_waiting in * by (cbn; discriminate).
+  unfold fire_end in *. cbn [ended init] in *.
+  destruct (end_dl w c (init t0)) as [[d k]|]; [destruct (reached (Some (time_of (CtrlBlocks t0))) d)|];
+    try (cbn in A; discriminate); reflexivity.
 Qed.
 
-(* idle_timeout = 0 is the same as idle_timeout = None (StreamIO.__init__: `read_timeout or timeout`) *)
-Theorem zero_is_unset_idle : forall c z t0 evs, idle c = Some z -> z == 0 ->
-  run std_wiring c t0 evs = run std_wiring (set_idle c None) t0 evs.
+(* ---------------------------------------------------------------- zero is zero seconds *)
+(* idle_timeout <= 0: the very first control read is given up at the session's start, whatever the
+   peer does afterwards *)
+Theorem idle_zero_drops_at_once : forall c z t0 evs, idle c = Some z -> z <= 0 ->
+  ended (run std_wiring c t0 evs) = Some (t0, CIdle).
 Proof.
-  intros c z t0 evs Hi Hz. apply run_ext. intros lim s. apply advance_ext; try reflexivity.
-  cbn. rewrite Hi, (truthy_zero z Hz). reflexivity.
+  intros c z t0 evs Hi Hz. apply run_dead_start. rewrite start_unfold.
+  assert (E : ended (step std_wiring c (init t0) (CtrlBlocks t0)) = Some (t0, CIdle)).
+  { apply dropped_at_deadline; try reflexivity; [|cbn; lra].
+    apply end_dl_idle_wins.
+    - rewrite (idle_dl_set c (init t0) z Hi). cbn [armed init]. rewrite (due_nonpos _ _ Hz). reflexivity.
+    - intros y ky H. discriminate.
+    - intros y ky H. discriminate. }
+  rewrite (step_ended _ _ _ _ _ E). exact E.
 Qed.
 
-(* socket_timeout = 0: NO timeout on control-channel writes (`write_timeout or timeout` = 0 or None) ... *)
-Theorem zero_is_unset_socket_ctrl : forall c z, socket c = Some z -> z == 0 ->
-  eval c (w_ctrl_write std_wiring) = None.
-Proof. intros c z Hs Hz. cbn. rewrite Hs, (truthy_zero z Hz). reflexivity. Qed.
+(* socket_timeout <= 0: the greeting (the first reply write, entered at t0) is given up at once:
+   the session is over at its start *)
+Theorem zero_socket_ends_at_greeting : forall c z t0 evs, socket c = Some z -> z <= 0 ->
+  exists d k, ended (run std_wiring c t0 evs) = Some (d, k) /\ d == t0.
+Proof.
+  intros c z t0 evs Hs Hz.
+  destruct (ended (step std_wiring c (init t0) (CtrlBlocks t0))) as [[d k]|] eqn:E1.
+  - (* the idle timer fired at t0 already *)
+    exists d, k. split.
+    + apply run_dead_start. rewrite start_unfold, (step_ended _ _ _ _ _ E1). exact E1.
+    + destruct (step_end_cause std_wiring c (init t0) (CtrlBlocks t0) d k eq_refl eq_refl E1) as [Hd Hle].
+      cbn [time_of] in Hle.
+      destruct (end_dl_sources _ _ _ _ _ Hd) as [S|[S|S]]; try discriminate.
+      unfold idle_dl in S. destruct (eval c (w_ctrl_read std_wiring)) as [i|]; [|discriminate].
+      cbn in S. inversion S; subst. change (due t0 i == t0).
+      pose proof (due_ge t0 i). apply Qle_antisym; assumption.
+  - pose proof (first_step_alive std_wiring c t0 E1) as F1.
+    set (s1 := step std_wiring c (init t0) (CtrlBlocks t0)) in *.
+    assert (C1 : cw s1 = Some t0) by (rewrite F1; reflexivity).
+    assert (A1 : armed s1 = t0) by (rewrite F1; reflexivity).
+    assert (X1 : xf s1 = XNone) by (rewrite F1; reflexivity).
+    destruct (end_dl_le_cw std_wiring c s1 _ (cw_dl_set c s1 t0 z C1 Hs)) as (d & k & Ed & Hle).
+    rewrite (due_nonpos _ _ Hz) in Hle.
+    assert (E2 : ended (step std_wiring c s1 (CtrlUnblocks t0)) = Some (d, k))
+      by (apply dropped_at_deadline; auto).
+    exists d, k. split; [apply run_dead_start; rewrite start_unfold; exact E2|].
+    apply Qle_antisym; [exact Hle|].
+    destruct (end_dl_sources _ _ _ _ _ Ed) as [S|[S|S]].
+    + unfold idle_dl in S. rewrite A1 in S. destruct (eval c (w_ctrl_read std_wiring)) as [i|]; [|discriminate].
+      cbn in S. injection S as Hd' _. rewrite <- Hd'. exact (due_ge t0 i).
+    + unfold data_dl in S. rewrite X1 in S. discriminate.
+    + rewrite (cw_dl_set c s1 t0 z C1 Hs) in S. injection S as Hd' _. rewrite <- Hd'. exact (due_ge t0 z).
+Qed.
 
-(* ... but an IMMEDIATE timeout on every data-stream read/write (`None or 0` = 0; wait_for(.., 0)) *)
+(* state level: a reply write pending since t under socket_timeout <= 0 ends the session by t ... *)
+Theorem zero_socket_ctrl_immediate : forall c s t z, alive s ->
+  cw s = Some t -> socket c = Some z -> z <= 0 ->
+  exists d k, ended (finish std_wiring c s) = Some (d, k) /\ d <= t.
+Proof.
+  intros c s t z Ha Hc Hs Hz. destruct (ctrl_write_stall_bound c s t z Ha Hc Hs) as (d & k & E & Hle).
+  exists d, k. split; [exact E|]. rewrite (due_nonpos _ _ Hz) in Hle. exact Hle.
+Qed.
+
+(* ... and every data-stream read/write is given up the instant it starts *)
 Theorem zero_socket_data_immediate : forall c s dr p z, alive s ->
-  xf s = XMove dr p -> socket c = Some z -> z == 0 ->
+  xf s = XMove dr p -> socket c = Some z -> z <= 0 ->
   (forall y ky, idle_dl std_wiring c s = Some (y, ky) -> p < y) ->
+  (forall y ky, cw_dl std_wiring c s = Some (y, ky) -> p <= y) ->
   ended (finish std_wiring c s) = Some (p, CData).
 Proof.
-  intros c s dr p z Ha Hx Hs Hz Hi. apply stall_ends_at_deadline; auto.
-  apply end_dl_data_wins.
-  - apply data_dl_zero with (d := dr) (z := z); auto. lra.
-  - exact Hi.
-  - intros y ky H. rewrite cw_dl_unset in H; [discriminate|]. rewrite Hs. apply truthy_zero. exact Hz.
+  intros c s dr p z Ha Hx Hs Hz Hi Hc.
+  pose proof (data_stall_bound c s dr p z Ha Hx Hs) as H. rewrite (due_nonpos _ _ Hz) in H.
+  exact (H Hi Hc).
 Qed.
 
-(* wait_future_timeout = 0: 425 at the instant of the command unless the data connection is already there *)
+(* wait_future_timeout <= 0: 425 at the instant of the command unless the data connection is already there *)
 Theorem zero_wait_immediate_425 : forall c s dr cmd z, alive s ->
-  xf s = XWait dr cmd -> wait_future c = Some z -> z == 0 ->
+  xf s = XWait dr cmd -> wait_future c = Some z -> z <= 0 ->
   (forall d k, end_dl std_wiring c s = Some (d, k) -> cmd < d) ->
   r425 (finish std_wiring c s) = cmd :: r425 s.
 Proof.
   intros c s dr cmd z Ha Hx Hw Hz Hd.
   pose proof (data_wait_425_stall c s dr cmd z Ha Hx Hw) as H. cbn zeta in H.
-  assert (Q : qlt 0 z = false).
-  { destruct (qlt 0 z) eqn:E; [|reflexivity]. apply qlt_true in E. lra. }
-  rewrite Q in H. exact (proj1 (H Hd)).
+  rewrite (due_nonpos _ _ Hz) in H. exact (proj1 (H Hd)).
+Qed.
+
+(* ---------------------------------------------------------------- the shape before the repair *)
+(* `X or timeout`: what gen_wiring computes when the source goes back to it.  It differs from
+   std_wiring exactly on the value 0 (so the obligation of Props/C16.v can tell the two apart), and
+   under it a silent session with idle_timeout = 0 is never dropped *)
+Definition or_wiring : wiring :=
+  {| w_ctrl_read := EOr EIdle ENone; w_ctrl_write := EOr ESocket ENone;
+     w_data_read := EOr ENone ESocket; w_data_write := EOr ENone ESocket;
+     w_wait := EWaitFuture; w_wait_continues := true |}.
+
+Theorem or_wiring_zero_is_unset : forall c z, idle c = Some z -> z == 0 ->
+  eval c (w_ctrl_read or_wiring) = None /\ eval c (w_ctrl_read std_wiring) = Some z.
+Proof.
+  intros c z Hi Hz. split.
+  - cbn. rewrite Hi, (truthy_zero z Hz). reflexivity.
+  - rewrite ctrl_read_is_idle. exact Hi.
 Qed.
